@@ -88,3 +88,14 @@ impl VerifNode {
         Node::try_interval_replication(network)
     }
 }
+
+impl VerifNode {
+    /// `Node::handle_network_event` (private to `node`): the node's dispatch of one `NetworkEvent`, with a
+    /// fresh connected-peers counter (only the `PeerAdded` arm reads it).
+    pub fn handle_network_event(&self, event: ant_networking::NetworkEvent) {
+        self.0.handle_network_event(
+            event,
+            &Arc::new(std::sync::atomic::AtomicUsize::new(0)),
+        )
+    }
+}
